@@ -197,6 +197,16 @@ func genKnapsack(t *rapid.T) Case {
 	return c
 }
 
+func genCardFan(t *rapid.T) Case {
+	_, ps := gen.CardFan(t)
+	c := Case{Front: "card", Constrs: ps}
+	if rapid.Bool().Draw(t, "asPB") {
+		c.Front = "pb"
+	}
+	c.CP = gen.Chance(t, 1, 5, "cuttingPlanes")
+	return c
+}
+
 func seqInts(lo, hi int) []int {
 	var s []int
 	for i := lo; i <= hi; i++ {
@@ -230,6 +240,8 @@ func init() {
 		vf.Sub[Case]{Name: "pb-knapsack", Quick: 8000, Thorough: 80000, Gen: genKnapsack, Check: check, Floor: 0.8,
 			Classes: map[string]float64{"conflicts>0": 0.5, "sat": 0.3, "unsat": 0.1},
 			Rule:    "ParsePBConstrs: n..2n tight rows (>= with degree 25..55 % of the sum of the coefficients, or the equivalent <=) with coefficients 1..9 over 5..9 of n = 8..12 variables, tiny learned-clause limit in a third of the cases; same oracle; non-trivial as above"},
+		vf.Sub[Case]{Name: "card-fan", Quick: 4000, Thorough: 50000, Gen: genCardFan, Check: check, Floor: 0.5,
+			Rule: "one or two cardinality constraints 'at least 3..4 of 6..9 literals' over 9..13 variables with fans of binary clauses whose trigger variable falsifies several watched literals of a constraint at once (gen.CardFan), through either front-end; same oracle; non-trivial as above"},
 		vf.Sub[Case]{Name: "card-structured", Quick: 4000, Thorough: 50000, Gen: genStructured("card"), Check: check, Floor: 0.5,
 			Classes: map[string]float64{"conflicts>0": 0.2},
 			Rule:    "ParseCardConstrs: the same structured families; " + rule},
